@@ -12,6 +12,7 @@ Record xcase := {
   x_texts : list string;           (* source text of each node of [subexprs x_body], in that order *)
   x_cond_params : list string;     (* parameters of the condition *)
   x_kwargs : env;                  (* resolved arguments of the call *)
+  x_defaults : env;                (* parameters of the condition that the call does not supply: their default values *)
   x_closure : env;
   x_globals : env
 }.
@@ -20,7 +21,10 @@ Definition text_of (c : xcase) (i : nat) : string := nth i (x_texts c) "?".
 Definition node (c : xcase) (i : nat) : expr := nth i (subexprs (x_body c)) EOmit.
 
 Definition tables (c : xcase) : list env :=
-  lookup_tables (x_kwargs c) (x_cond_params c) (x_closure c) (x_globals c).
+  match lookup_tables (x_kwargs c) (x_cond_params c) (x_closure c) (x_globals c) with
+  | params :: rest => (params ++ x_defaults c) :: rest
+  | [] => []
+  end.
 Definition start_env (c : xcase) : env := flatten (tables c).
 
 Definition py_run (c : xcase) := ev py_prims 0 (x_body c) (start_env c, []).
